@@ -35,6 +35,10 @@ func zzC06Encode(val interface{}) ([]byte, error) {
 		zzC06Written = evs
 		return []byte{0xE5}, nil
 	}
+	if d, ok := val.(SlashDataV5); ok {
+		// the log payload names the validator: enough to see the order of the logs
+		return append([]byte{0xD5, d.Type}, d.MainAddress[:]...), nil
+	}
 	return []byte{1}, nil
 }
 
@@ -167,5 +171,77 @@ func zzH_C06_slashing() {
 	// builder, but is filed as "deleted" and never written to the slash data
 	zeroPenalty := b.Expelled && len(zzC06Written) == 0
 	zzverif.AssertKF(same, "the importing node reaches the builder's validator state from the slash data", "C06-zero-penalty-expulsion-not-replayed", zeroPenalty)
+	zzverif.Reach("end")
+}
+
+// zzH_C06_maporder_update: the end-of-block pass over all validators (recovery from an expired
+// expulsion, inactivity slashing) emits the same logs in the same order and leaves the same
+// validator state under every pair of map / sync.Map iteration orders: the receipt (and so the
+// header's receipt root) of the block does not depend on them.
+func zzH_C06_maporder_update() {
+	zzverif.PermuteMaps(false)
+	s := zzNewState()
+	for i := 1; i <= 2; i++ {
+		tag := "v1"
+		if i == 2 {
+			tag = "v2"
+		}
+		role := params.ValidatorRole(zzverif.U8(tag + ".role"))
+		zzverif.Assume(role >= 1 && role <= 3)
+		if !zzverif.Thorough() {
+			// quick tier: chamber members only (house members are skipped by the inactivity check)
+			zzverif.Assume(role == params.RoleChancellor)
+		}
+		tok := new(big.Int).Mul(params.StakeUint, big.NewInt(int64(i)))
+		v := s.CreateValidator("v", common.Address{0x10 + byte(i)}, common.Address{0x10 + byte(i)}, role, zzPub(i), zzPub(i), tok, params.YOUToStake(tok), 1, 0, 0, params.ValidatorOnline)
+		nv := v.PartialCopy()
+		if zzverif.Bool(tag + ".expelled") {
+			nv.Expelled, nv.Status = true, params.ValidatorOffline
+			nv.ExpelExpired = uint64(zzverif.U16(tag + ".expelExpired"))
+		}
+		nv.UpdateLastActive(uint64(zzverif.U16(tag + ".lastActive")))
+		s.UpdateValidator(nv, v)
+	}
+	s.Finalise(false)
+	cfg := &params.YouParams{}
+	cfg.Version = params.YouV5
+	cfg.InactivityPenaltyWaitRounds = uint64(zzverif.U16("inactivityWaitRounds"))
+	cfg.ExpelledRoundForInactive = uint64(zzverif.U16("expelledRoundForInactive"))
+	cfg.PenaltyFractionForInactive = 0 // stated bound: no token penalty for inactivity (the order of the pass is the subject)
+	cfg.PenaltyTo = common.Address{0x77}
+	height := uint64(zzverif.U16("height"))
+	for i := 1; i <= 2; i++ {
+		zzverif.Assume(s.GetValidatorByMainAddr(zzValAddr(i)).LastActive() <= height)
+	}
+	header := &types.Header{Number: new(big.Int).SetUint64(height), CurrVersion: params.YouV5}
+	a := &context{config: cfg, db: s, header: header, receipt: &types.Receipt{}, recorder: local.FakeRecorder(), chain: zzC06Chain{}}
+	h2 := *header
+	b := &context{config: cfg, db: s.Copy(), header: &h2, receipt: &types.Receipt{}, recorder: local.FakeRecorder(), chain: zzC06Chain{}}
+	slashingAndRecoveringYouV5(a)
+	zzverif.PermuteMaps(true)
+	slashingAndRecoveringYouV5(b)
+	zzverif.PermuteMaps(false)
+	zzverif.Reach("ran-twice")
+	la, lb := a.receipt.Logs, b.receipt.Logs
+	zzverif.Assert(len(la) == len(lb), "the same number of logs is emitted under both orders")
+	if len(la) == len(lb) {
+		if len(la) == 2 {
+			zzverif.Reach("two-logs")
+		}
+		for i := range la {
+			same := len(la[i].Topics) == len(lb[i].Topics) && string(la[i].Data) == string(lb[i].Data)
+			if len(la[i].Topics) == len(lb[i].Topics) {
+				for j := range la[i].Topics {
+					same = same && la[i].Topics[j] == lb[i].Topics[j]
+				}
+			}
+			zzverif.Assert(same, "the logs of the validator pass come in the same order under every iteration order")
+		}
+	}
+	for i := 1; i <= 2; i++ {
+		x, y := a.db.GetValidatorByMainAddr(zzValAddr(i)), b.db.GetValidatorByMainAddr(zzValAddr(i))
+		zzverif.Assert(x.Status == y.Status && x.Expelled == y.Expelled && x.ExpelExpired == y.ExpelExpired && x.LastInactive == y.LastInactive && x.Token.Cmp(y.Token) == 0,
+			"the validator pass leaves the same validator state under every iteration order")
+	}
 	zzverif.Reach("end")
 }
